@@ -3,4 +3,5 @@ CONSTANTS
   MaxDepth = 2
   MutDepth = 1
   DEV_StaleKeyOnMove = FALSE
+  DEV_EqSeesDerived = FALSE
 INVARIANT Emit
